@@ -68,6 +68,19 @@ pub fn apply_file_system_operations(
     crate::write_artifacts::apply_file_system_operations(operations, artifacts)
 }
 
+/// The write phase of `compile` (plan, apply, state bookkeeping) as one call.
+pub fn write_artifacts_to_disk(
+    artifacts: &[ArtifactPathAndContent],
+    artifact_directory: &Path,
+    file_system_state: &mut Option<FileSystemState>,
+) -> LocationFreeDiagnosticResult<usize> {
+    crate::write_artifacts::write_artifacts_to_disk(
+        artifacts,
+        artifact_directory,
+        file_system_state,
+    )
+}
+
 pub fn categorize_and_filter_events(
     events: &[DebouncedEvent],
     config: &CompilerConfig,
